@@ -122,6 +122,9 @@ class ProtoInterp(nalg.NInterp):
             self.margin = min(self.margin, 0)      # `time < end` survives a change of dt, `time + k·dt < end` does not
             self.advanced = 0 if self.ste is None else self.advanced
             self.events.append(("dt", self.ste, node))
+            pv = self.fields.get("self.prev_values")
+            if isinstance(pv, nalg.DequeVal):
+                pv.log.append(("self.dt", "dt-write", None, node))
             return nalg.NInterp.assign(self, lhs, val, node)
         if pl == "self.save_state":
             self.fields["self.save_state"] = val
@@ -156,6 +159,9 @@ class ProtoInterp(nalg.NInterp):
             return sym.Variant("Ok", [()])
         if name == "secant" and place(n["recv"]) == "self":
             self.events.append(("solve", None, n))
+            pv = self.fields.get("self.prev_values")
+            if isinstance(pv, nalg.DequeVal):
+                pv.log.append(("prev_values", "formula-read", None, n))   # the implicit BDF solve reads the whole value history
             return sym.Variant("Ok", [sp.Symbol("Solve%d" % len(self.events), real=True)])
         if name == "real" or name == "clone":
             return self.ev(n["recv"])
@@ -244,7 +250,7 @@ class Proto:
 
     def run_call(self, state, prefix):
         """Execute step() from abstract `state` following decision `prefix`; returns (result, forks)."""
-        ym, vals, ders, save, last, ste, dirty, origin, margin = state
+        ym, vals, ders, save, last, ste, dirty, origin, margin, stale = state
         forks = []
         decisions = list(prefix)
         pos = [0]
@@ -305,7 +311,7 @@ class Proto:
 
     def explore(self, limit=4000):
         O = self.O
-        init = (0, (), (), None, 0, None, False, None, -1)
+        init = (0, (), (), None, 0, None, False, None, -1, ())
         seen = {init}
         work = [init]
         transitions = []
@@ -337,7 +343,7 @@ class Proto:
                 stack.extend(forks)
                 n_calls += 1
                 flagged[0] = False
-                ym, vals, ders, save, last, ste, dirty, origin, margin = st
+                ym, vals, ders, save, last, ste, dirty, origin, margin, stale = st
                 kind, tag = self.classify(it, res)
                 # ghost: under which end tests was the pending start-up taken (identifies the history that leads to a T1 finding)
                 norigin = origin
@@ -403,6 +409,24 @@ class Proto:
                     problem("R1.5:" + kind, "step returns %s" % (tag,), None, st, labels)
                 if rolled and nlast > p:
                     problem("T1:yield-before-commit", "a point beyond the roll-back position was already yielded", None, st, labels)
+                # spacing epochs: a history that was filled with one dt must be cleared before a formula reads it under another dt
+                lens = {"prev_values": len(vals), "prev_derivatives": len(ders)}
+                stale_now = set(stale)
+                for nm, what_, arg, node in log:
+                    if what_ == "dt-write":
+                        for dq_, ln in lens.items():
+                            if ln > 0:
+                                stale_now.add(dq_)
+                    elif what_ == "push_back":
+                        lens[nm] = lens.get(nm, 0) + 1
+                    elif what_ == "pop_front":
+                        lens[nm] = max(0, lens.get(nm, 0) - 1)
+                    elif what_ == "clear":
+                        lens[nm] = 0
+                        stale_now.discard(nm)
+                    elif (what_ == "formula-read" or (what_ == "index" and not kind_is_yield_read(ym, O, self.kind))) and nm in stale_now:
+                        problem("R3.6:stale-spacing:" + nm, "the formula reads %s, whose entries were spaced with a step size that has since been rewritten (the history was not "
+                                "cleared after the change of dt): the fixed-step coefficients are applied to unequally spaced points" % nm, node, st, labels)
                 # formula reads need aligned history
                 if reads:
                     pos_before = 0
@@ -422,7 +446,7 @@ class Proto:
                 def rel(ts):
                     return tuple(t - p for t in ts)
                 pending = (nym == O) if self.kind == "adams" else (nym == O + 1)
-                nst = (nym, rel(nvals), rel(nders), (nsave - p) if (nsave is not None and pending) else None, nlast - p, it.ste, bool(it.dt_dirty and pending), norigin if nym != 0 else None, min(it.margin, O + 1) if it.ste is None else -1)
+                nst = (nym, rel(nvals), rel(nders), (nsave - p) if (nsave is not None and pending) else None, nlast - p, it.ste, bool(it.dt_dirty and pending), norigin if nym != 0 else None, min(it.margin, O + 1) if it.ste is None else -1, tuple(sorted(stale_now)))
                 transitions.append((st, kind, tag, nst, labels))
                 if kind == "redo":
                     wrote_dt = any(w == "dt" for w, _, _ in it.events)
